@@ -6,10 +6,14 @@ Protocol
     mapping table                       -> the dispatch table of the model (compared with METH_DICT)
     mapping read <library> <lines>      -> "error" | [ [ mapping ... ] [ key ... ] ]
     library := [ [ ffname [ block ... ] [ modification ... ] ] ... ]
-    block   := [ name ffname|- nrexcl|- [ [ nodekey [ [ attr value ] ... ] ] ... ] [ [ a b ] ... ] ]
-    value   := [ 0 int ] | [ 1 str ] | [ 2 bool ] | [ 3 ]          (other attribute values are not sent)
+    block   := [ name ffname|- nrexcl|- [ [ nodekey [ [ attr value ] ... ] ] ... ] [ [ a b attrs ] ... ]
+                 [ [ section [ atom ... ] payload ] ... ] [ citation ... ] ]
+    value   := [ 0 int ] | [ 1 str ] | [ 2 bool ] | [ 3 ] | [ 4 canonical-json-text ] | [ 5 [ choice ... ] ]
+    payload := parameters and meta of an interaction as canonical text (opaque to the reader)
     mapping := [ ff_from ff_to type [ names ] [ [ i [ [ j w ] ... ] ] ... ] [ [ to from ] ... ]
-                 nodes(block_from) edges(block_from) nodes(block_to) edges(block_to) ]
+                 nodes(block_from) edges(block_from) nodes(block_to) edges(block_to)
+                 interactions(block_from) interactions(block_to) citations(block_from) citations(block_to) ]
+    edges   := [ [ a b attrs ] ... ]   interactions := [ [ section [ [ [ atom ... ] payload ] ... ] ] ... ]
     key     := [ ff_from ff_to [ names ] index ]     (the nested dict of read_mapping_file, iteration order)
 """
 import glob
@@ -37,7 +41,23 @@ def _repr_j(v):
         return 'n'
     if isinstance(v, Choice):
         return 'c' + '|'.join(v.value)
-    return None
+    return 'o' + _jtext(v)
+
+
+def _jtext(v):
+    return json.dumps(v, separators=(',', ':'), sort_keys=True, default=repr)
+
+
+def _payload(it):
+    """parameters and meta of an interaction: passed through by the reader, compared as text"""
+    from vermouth.molecule import LinkParameterEffector
+    ps = []
+    for q in it.parameters:
+        if isinstance(q, LinkParameterEffector):
+            ps.append('%s(%s|%s)' % (type(q).__name__, ','.join(q.keys), q.format))
+        else:
+            ps.append(q if isinstance(q, str) else repr(q))
+    return _jtext([ps, sorted([k, _repr_j(v)] for k, v in it.meta.items())])
 
 
 def _canon_attrs(chk, d):
@@ -48,17 +68,25 @@ def _canon_attrs(chk, d):
             out.append([k, 'o[' + ','.join(str(getattr(x, 'name', x)) for x in v) + ']'])
             continue
         r = _repr_j(v)
-        if r is None:       # floats, dicts, lists: not part of the library either
-            chk.count('mapfile_attr_not_compared')
-            continue
+        if r.startswith('o'):       # floats, dicts, lists: compared as canonical text
+            chk.count('mapfile_attr_nonscalar_compared')
         out.append([k, r])
     return out
 
 
 def _dump_graph(chk, g):
     nodes = [[k, _canon_attrs(chk, g.nodes[k])] for k in g.nodes]
-    edges = sorted({(min(a, b), max(a, b)) for a, b in g.edges})
-    return nodes, [list(e) for e in edges]
+    edges = sorted([min(a, b), max(a, b), _canon_attrs(chk, g.edges[a, b])] for a, b in g.edges)
+    for e in edges:
+        if e[2]:
+            chk.count('mapfile_edge_attrs_compared')
+    return nodes, edges
+
+
+def _dump_inters(chk, g):
+    out = [[t, [[list(it.atoms), _payload(it)] for it in its]] for t, its in g.interactions.items()]
+    chk.count('mapfile_interactions_compared', sum(len(x[1]) for x in out))
+    return out
 
 
 def dump_mapping(chk, m):
@@ -66,7 +94,9 @@ def dump_mapping(chk, m):
     nt, et = _dump_graph(chk, m.block_to)
     return [m.ff_from, m.ff_to, m.type, list(m.names),
             [[i, [[j, w] for j, w in d.items()]] for i, d in m.mapping.items()],
-            [[t, f] for t, f in m.references.items()], nf, ef, nt, et]
+            [[t, f] for t, f in m.references.items()], nf, ef, nt, et,
+            _dump_inters(chk, m.block_from), _dump_inters(chk, m.block_to),
+            sorted(m.block_from.citations), sorted(m.block_to.citations)]
 
 
 def _enc_val(v):
@@ -76,15 +106,26 @@ def _enc_val(v):
         return [0, v]
     if isinstance(v, str):
         return [1, v]
-    return [3]
+    if v is None:
+        return [3]
+    from vermouth.molecule import Choice
+    if isinstance(v, Choice):
+        return [5, list(v.value)]
+    return [4, _jtext(v)]
+
+
+def _enc_attrs(d):
+    # `modifications` = [the modification itself] is what `_blocks` writes into the nodes of a fetched
+    # modification (a side effect on the force field); the model sets it itself
+    return [[a, _enc_val(v)] for a, v in d.items() if isinstance(a, str) and not (a == 'modifications' and isinstance(v, list))]
 
 
 def _lib_block(key, b):
-    nodes = [[str(k), [[a, _enc_val(v)] for a, v in b.nodes[k].items()
-                       if isinstance(v, SCALAR) and isinstance(a, str)]] for k in b.nodes]
-    edges = [[str(a), str(c)] for a, c in b.edges]
+    nodes = [[str(k), _enc_attrs(b.nodes[k])] for k in b.nodes]
+    edges = [[str(a), str(c), _enc_attrs(b.edges[a, c])] for a, c in b.edges]
+    inters = [[t, [str(a) for a in it.atoms], _payload(it)] for t, its in b.interactions.items() for it in its]
     ff = b.force_field
-    return [key, None if ff is None else ff.name, b.nrexcl, nodes, edges]
+    return [key, None if ff is None else ff.name, b.nrexcl, nodes, edges, inters, sorted(b.citations)]
 
 
 def library(ffs, keep=None):
@@ -180,6 +221,16 @@ def toy_ff_text(name):
             out.append('[ edges ]')
             for (a, _, _), (b, _, _) in zip(atoms, atoms[1:]):
                 out.append('%s %s' % (a, b))
+            if len(atoms) >= 2:
+                out.append('[ bonds ]')
+                for j, ((a, _, _), (b, _, _)) in enumerate(zip(atoms, atoms[1:])):
+                    out.append('%s %s 1 0.%d 1000%s' % (a, b, j + 1, ' {"group": "g%d"}' % j if j % 2 else ''))
+            if len(atoms) >= 3:
+                out += ['[ angles ]', '#meta {"comment": "toy"}',
+                        '%s %s %s 2 120 25' % (atoms[0][0], atoms[1][0], atoms[2][0])]
+                out += ['[ constraints ]', '%s %s 1 0.3 {"edge": false}' % (atoms[0][0], atoms[2][0])]
+            if len(bname) % 2:
+                out += ['[ citation ]', 'cite_%s %s_paper' % (bname, name)]
     for mname, atoms in sp['mods'].items():
         out += ['[ modification ]', mname, '[ atoms ]']
         for an, _, extra in atoms:
@@ -187,7 +238,10 @@ def toy_ff_text(name):
         out.append('[ edges ]')
         for (a, _, _), (b, _, _) in zip(atoms, atoms[1:]):
             out.append('%s %s' % (a, b))
-    return out
+        if len(atoms) >= 2:
+            out += ['[ bonds ]', '%s %s 1 dist(%s,%s|.3f) 5000' % (atoms[0][0], atoms[1][0], atoms[0][0], atoms[1][0])]
+        out += ['[ citation ]', 'mod_%s' % mname]
+    return ['[ citations ]', 'ff_%s_paper' % name] + out
 
 
 def toy_ffs():
@@ -197,6 +251,11 @@ def toy_ffs():
     for name in SPEC:
         ff = ForceField(name=name)
         read_ff(toy_ff_text(name), ff)
+        # edge attributes cannot be written in a .ff file; a library built by other means can have them
+        for b in list(ff.blocks.values()) + list(ff.modifications.values()):
+            for k, (u, v) in enumerate(b.edges):
+                if k % 2 == 0:
+                    b.edges[u, v]['kind'] = 'bb' if k % 4 == 0 else 7
         ffs[name] = ff
     return ffs
 
@@ -321,7 +380,8 @@ def gen_section(rng, macros):
             for x in range(rng.randint(1, 2)):
                 ui = rng.randrange(len(s.uses[d]))
                 an = 'H%s%d' % (d[0].upper(), x)
-                extra = rng.choice([None, {'element': 'H'}, {'tag': 7}, {'flag': False}])
+                extra = rng.choice([None, {'element': 'H'}, {'tag': 7}, {'flag': False}, {'replace': {'atomname': 'X', 'q': [1, 2]}},
+                                    {'w': 0.5}])
                 node = dict(s.uses[d][ui].attrs, atomname=an)
                 node.setdefault('resname', None)
                 node.setdefault('resid', None)
@@ -337,9 +397,9 @@ def gen_section(rng, macros):
                 a, b = rng.sample(addr[d], 2)
                 if a[2] == b[2]:
                     continue
-                s.edges[d].append((a[2], b[2]))
-                ls.append('%s %s%s' % (ref(d, a[0], a[1]), ref(d, b[0], b[1]),
-                                       rng.choice(['', '', ' {"order": 2}'])))
+                eattr = rng.choice([None, None, {'order': 2}, {'kind': 'x', 'w': [1, 2]}, {'kind': None}])
+                s.edges[d].append((a[2], b[2], eattr or {}))
+                ls.append('%s %s%s' % (ref(d, a[0], a[1]), ref(d, b[0], b[1]), (' ' + json.dumps(eattr)) if eattr else ''))
             if ls:
                 s.subs.append((d + ' edges', ls))
     # mapping lines
@@ -593,7 +653,18 @@ def node_id(g, k):
     return (a.get('resname'), a.get('resid'), a.get('atomname'))
 
 
-def oracle(secs, emitted):
+def declared_interactions(kind, atoms):
+    """what toy_ff_text writes for a block / modification with these atoms: (section, atom positions)"""
+    n = len(atoms)
+    if kind != 'block':
+        return [('bonds', (0, 1))] if n >= 2 else []
+    out = [('bonds', (j, j + 1)) for j in range(n - 1)]
+    if n >= 3:
+        out += [('angles', (0, 1, 2)), ('constraints', (0, 2))]
+    return out
+
+
+def oracle(secs, emitted, ffs=None):
     errs = []
     if len(emitted) != len(secs):
         return ['%d sections declared, %d mappings loaded' % (len(secs), len(emitted))]
@@ -624,15 +695,39 @@ def oracle(secs, emitted):
         grefs = {node_id(m.block_to, t): node_id(m.block_from, f) for t, f in m.references.items()}
         if wrefs != grefs:
             errs.append(tag + 'references %r, declared %r' % (grefs, wrefs))
-        for a, b in s.edges['to']:
-            pair = {nid('to', a), nid('to', b)}
-            if not any({node_id(m.block_to, x), node_id(m.block_to, y)} == pair for x, y in m.block_to.edges):
-                errs.append(tag + 'declared edge %r missing in block_to' % (pair,))
-        for a, b in s.edges['from']:
-            pair = {nid('from', a), nid('from', b)}
-            if pair <= set(want) and not any({node_id(m.block_from, x), node_id(m.block_from, y)} == pair
-                                             for x, y in m.block_from.edges):
-                errs.append(tag + 'declared edge %r missing in block_from' % (pair,))
+        for d, g in (('to', m.block_to), ('from', m.block_from)):
+            declared = {}        # unordered pair -> attributes written for it, later lines update earlier ones
+            for a, b, eattr in s.edges[d]:
+                declared.setdefault(frozenset((nid(d, a), nid(d, b))), {}).update(eattr)
+            for pair, eattr in declared.items():
+                if d == 'from' and not pair <= set(want):
+                    continue
+                found = [g.edges[x, y] for x, y in g.edges if frozenset((node_id(g, x), node_id(g, y))) == pair]
+                if not found:
+                    errs.append(tag + 'declared edge %r missing in block_%s' % (set(pair), d))
+                elif any(found[0].get(k, '<absent>') != v for k, v in eattr.items()):
+                    errs.append(tag + 'edge %r of block_%s has attributes %r, declared %r' % (set(pair), d, found[0], eattr))
+        if ffs is None or s.empty:
+            continue
+        # the interactions and citations of the blocks the section names travel with them: block_to holds
+        # exactly the interactions of its blocks (on the renumbered atoms), block_from those among mapped atoms
+        for d, g in (('from', m.block_from), ('to', m.block_to)):
+            coll = SPEC[s.ff[d]]['blocks' if s.kind == 'block' else 'mods']
+            lib = ffs[s.ff[d]].blocks if s.kind == 'block' else ffs[s.ff[d]].modifications
+            exp, start, cites = [], 0, set()
+            for u in s.uses[d]:
+                atoms = coll[u.resname]
+                for sect, pos in declared_interactions(s.kind, atoms):
+                    ids = tuple(nid(d, start + q) for q in pos)
+                    if d == 'to' or all(x in want for x in ids):
+                        exp.append((sect, ids))
+                start += len(atoms)
+                cites |= set(lib[u.resname].citations)
+            have = [(t, tuple(node_id(g, a) for a in it.atoms)) for t, its in g.interactions.items() for it in its]
+            if sorted(map(repr, have)) != sorted(map(repr, exp)):
+                errs.append(tag + 'interactions of block_%s %r, declared by its blocks %r' % (d, sorted(have), sorted(exp)))
+            if set(g.citations) != cites:
+                errs.append(tag + 'citations of block_%s %r, those of its blocks %r' % (d, sorted(g.citations), sorted(cites)))
     return errs
 
 
@@ -698,6 +793,51 @@ CORPUS = [
 ]
 
 
+def _nofetch_check(emitted):
+    m = emitted[0]
+    errs = []
+    if list(m.names) != ['ALA']:
+        errs.append('names %r, declared ALA' % (m.names,))
+    got = [(a.get('resname'), a.get('atomname')) for _, a in m.block_from.nodes(data=True)]
+    if got != [('ALA', 'CA')]:
+        errs.append('block_from %r: "!X" must fetch no block, the two declared nodes are N and CA, only CA is mapped' % got)
+    if {(i, j): w for i, d in m.mapping.items() for j, w in d.items()} != {(1, 0): 1}:
+        errs.append('mapping %r, declared X:CA -> BB' % (m.mapping,))
+    return errs
+
+
+def _edge_attr_check(emitted):
+    m = emitted[0]
+    e = [(sorted((m.block_to.nodes[x]['atomname'], m.block_to.nodes[y]['atomname'])), dict(d))
+         for x, y, d in m.block_to.edges(data=True) if {m.block_to.nodes[x]['atomname'], m.block_to.nodes[y]['atomname']} == {'BB', 'SC1'}]
+    want = {'order': 2, 'kind': 'y', 'extra': [1]}
+    if len(e) != 1 or any(e[0][1].get(k) != v for k, v in want.items()):
+        return ['edge BB-SC1 of block_to %r, declared with attributes %r (second line updates the first)' % (e, want)]
+    return []
+
+
+def _macro_redefined_check(emitted):
+    found = [sorted(m.block_to.nodes[j]['atomname'] for d in m.mapping.values() for j in d) for m in emitted]
+    if found != [['A'], ['B']]:
+        return ['targets of the two mappings %r; declared [[A], [B]]: `a $target` is written after `target A` in the '
+                'first section and after the redefinition `target B` in the second' % found]
+    return []
+
+
+_MACRO_BODY = ['[ block ]', '[ from blocks ]', '!X', '[ to blocks ]', '!Y', '[ from nodes ]', 'a', '[ to nodes ]', 'A', 'B',
+               '[ mapping ]', 'a $target']
+
+# directed cases with a check of the content: (name, lines, check(emitted) -> errors)
+DIRECTED = [
+    ('macro-redefined-identical-lines', ['[ macros ]', 'target A'] + _MACRO_BODY + ['[ macros ]', 'target B'] + _MACRO_BODY,
+     _macro_redefined_check),
+    ('nofetch-marker', _B + ['[ from blocks ]', '!X {"resname": "ALA"}', '[ from nodes ]', 'X:N', 'X:CA', '[ to blocks ]', 'ALA',
+                             '[ mapping ]', 'X:CA BB'], _nofetch_check),
+    ('edge-attributes', _B + _FT + ['[ to edges ]', 'BB SC1 {"order": 2, "kind": "x"}', 'SC1 BB {"kind": "y", "extra": [1]}',
+                                    '[ mapping ]', 'CA BB'], _edge_attr_check),
+]
+
+
 def run_corpus(chk, ask):
     from vermouth.ffinput import read_ff
     ffs = toy_ffs()
@@ -710,6 +850,16 @@ def run_corpus(chk, ask):
         errs = [] if got == want else ['corpus case %s: expected %r, the reader gives %r (%s)' % (name, want, got, exc)]
         chk.count('mapfile_corpus')
         chk.case('mapping-corpus-' + name, {'lines': ls, 'req': 'mapping read <toy library + EMP> <lines>'}, im, mo, errs, True)
+    reqs = [line('mapping', 'read', lib, ls) for _, ls, _ in DIRECTED]
+    for (name, ls, check), ln, mo in zip(DIRECTED, reqs, ask(reqs)):
+        im, emitted, _keys, exc = run_real(chk, ls, ffs)
+        nwant = count_kind_headers(ls)
+        if emitted is None or len(emitted) != nwant:
+            errs = ['directed case %s: %d mappings declared, the reader gives %r (%s)' % (name, nwant, emitted and len(emitted), exc)]
+        else:
+            errs = check(emitted)
+        chk.count('mapfile_directed')
+        chk.case('mapping-directed-' + name, {'lines': ls, 'req': 'mapping read <toy library + EMP> <lines>'}, im, mo, errs, True)
 
 
 def count_kind_headers(lines):
@@ -766,7 +916,7 @@ def run_generated(chk, ask, ffs):
                 errs.append('valid file rejected (%s)' % exc)
             else:
                 try:
-                    errs += oracle(secs, emitted)
+                    errs += oracle(secs, emitted, ffs)
                 except Exception as e:     # the loaded objects are not even well formed
                     errs.append('the oracle could not inspect the loaded mappings: %r' % (e,))
                 # read_mapping_file: one entry per (ff_from, ff_to, names), holding the LAST such section
